@@ -17,7 +17,11 @@ def main():
     rep = Report(a.prop, tier, seed)
     if a.replay:
         sys.exit(mod.replay(rep, json.load(open(a.replay))))
-    mod.check(rep, tier, Rng(seed))
+    try:
+        mod.check(rep, tier, Rng(seed))
+    except Exception as e:          # the machinery itself failed on this tree: the property is not shown to hold
+        import traceback
+        rep.violation({"kind": "check-did-not-complete", "exception": repr(e)[:500], "traceback": traceback.format_exc()[-1500:]}, found_input=False)
     sys.exit(rep.finish())
 
 
